@@ -344,9 +344,36 @@ pub open spec fn reg_read(x: AArch64Register, env: Env) -> EvalR {
     }
 }
 
+/// `e` is a well-sorted expression of x's width that reads register x (what `get` returns; doubles as a trigger)
+pub open spec fn reg_expr(x: AArch64Register, e: Expression) -> bool {
+    &&& expr_wf(e) && expr_bits(e) == x.bits
+    &&& forall|env: Env| env_sorted(env) ==> #[trigger] eval_spec(e, env) == reg_read(x, env)
+}
+
 /// `src` computes the new content of the full register: the written value, zero-extended (same number)
 pub open spec fn write_ok(x: AArch64Register, value: Expression, src: Expression, env: Env) -> bool {
     eval_spec(value, env) matches EvalR::Val(w, v) ==> eval_spec(src, env) == EvalR::Val(x.full_rec().bits as nat, v)
+}
+
+/// a write of (at most) x.bits bits: the full 64-bit register receives the value itself, which is below 2^x.bits - i.e.
+/// for a W register bits 63..32 of the X register become zero
+pub open spec fn w_write_ok(x: AArch64Register, value: Expression, src: Expression, env: Env) -> bool {
+    eval_spec(value, env) matches EvalR::Val(w, v) ==> eval_spec(src, env) == EvalR::Val(64, v) && v < pow2(x.bits as nat)
+}
+
+/// "32-bit destinations clear the upper half": a write of at most x.bits bits to an integer register assigns the 64-bit
+/// scalar x<n> / sp the value itself (below 2^x.bits)
+pub open spec fn w_clears_upper(x: AArch64Register, value: Expression, b1: Block) -> bool {
+    (gp_class(x.bad64_reg) is Some && expr_bits(value) <= x.bits) ==>
+        (b1.instructions@.last().operation matches Operation::Assign { dst, src } && dst == named_scalar(xname(gp_class(x.bad64_reg).unwrap().1), 64)
+         && forall|env: Env| env_sorted(env) ==> #[trigger] w_write_ok(x, value, src, env))
+}
+
+/// "the zero register discards writes": the assignment goes to the scratch scalar "xzr", which is not the name of any
+/// architectural scalar (x0..x30, sp, n, z, c, v) - and is never read (get: zero_reads_zero)
+pub open spec fn zero_discards(x: AArch64Register, b1: Block) -> bool {
+    is_zero_reg(x.bad64_reg) ==>
+        (b1.instructions@.last().operation matches Operation::Assign { dst, src } && dst.name@ == "xzr"@ && !is_arch_name(dst.name@))
 }
 
 /// the effect of `x.set(block, value)`: exactly one instruction is appended, `full(x) := src`
@@ -458,6 +485,10 @@ pub proof fn lemma_xname_injective()
     reveal_strlit("x30");
     reveal_strlit("sp"); reveal_strlit("xzr");
     reveal_strlit("n"); reveal_strlit("z"); reveal_strlit("c"); reveal_strlit("v");
+    assert("n"@[0] == 'n' && "z"@[0] == 'z' && "c"@[0] == 'c' && "v"@[0] == 'v');
+    assert forall|n: int| 0 <= n <= 32 implies (#[trigger] xname(n)) != "n"@ && xname(n) != "z"@ && xname(n) != "c"@ && xname(n) != "v"@ by {
+        assert(xname(n).len() >= 2);
+    }
     assert forall|n: int, m: int| 0 <= n <= 32 && 0 <= m <= 32 && n != m implies #[trigger] xname(n) != #[trigger] xname(m) by {
         let a = xname(n); let b = xname(m);
         if a.len() == b.len() {
@@ -553,6 +584,7 @@ impl AArch64Register {
         /*@ok*/ expr_wf(r) && expr_bits(r) == self.bits,
         /*@zero_reads_zero*/ is_zero_reg(self.bad64_reg) ==> (forall|env: Env| #[trigger] eval_spec(r, env) == EvalR::Val(self.bits as nat, 0)),
         /*@get_value*/ forall|env: Env| env_sorted(env) ==> #[trigger] eval_spec(r, env) == reg_read(*self, env),
+        /*@expr*/ reg_expr(*self, r),
     decreases (if self.bad64_reg == self.bad64_full_reg { 0nat } else { 1nat }),
 //@ enter
     proof {
@@ -590,11 +622,8 @@ impl AArch64Register {
     ensures
         /*@wf*/ final(block).block_wf(),
         /*@effect*/ set_effect(*self, value, *old(block), *final(block)),
-        /*@w_clears_upper*/ (gp_class(self.bad64_reg) matches Some((is64, n)) && expr_bits(value) <= self.bits) ==>
-            (final(block).instructions@.last().operation matches Operation::Assign { dst, src } && dst == named_scalar(xname(n), 64)
-             && forall|env: Env| env_sorted(env) ==> ((#[trigger] eval_spec(value, env)) matches EvalR::Val(w, v) ==> eval_spec(src, env) == EvalR::Val(64, v) && v < pow2(self.bits as nat))),
-        /*@zero_discards*/ is_zero_reg(self.bad64_reg) ==>
-            (final(block).instructions@.last().operation matches Operation::Assign { dst, src } && dst.name@ == "xzr"@ && !is_arch_name(dst.name@)),
+        /*@w_clears_upper*/ w_clears_upper(*self, value, *final(block)),
+        /*@zero_discards*/ zero_discards(*self, *final(block)),
     decreases (if self.bad64_reg == self.bad64_full_reg { 0nat } else { 1nat }),
 //@ enter
     let ghost value0 = value;
@@ -619,11 +648,29 @@ impl AArch64Register {
             }
         }
     }
+//@ after 0 `block.assign(scalar(self.name, self.bits), value);`
+    proof {
+        let src = last_src(*block);
+        if gp_class(self.bad64_reg) is Some && expr_bits(value0) <= self.bits {
+            lemma_gp_scalar(*self);
+            assert forall|env: Env| env_sorted(env) implies #[trigger] w_write_ok(*self, value0, src, env) by {
+                assert(write_ok(*self, value0, src, env));
+                lemma_eval_wf_val(value0, env);
+            }
+        }
+    }
 //@ after 0 `full_reg.set(block, value);`
     proof {
         let src = last_src(*block);
         assert forall|env: Env| env_sorted(env) implies #[trigger] write_ok(*self, value0, src, env) by {
             assert(write_ok(*full_reg, value0, src, env));
+        }
+        if gp_class(self.bad64_reg) is Some && expr_bits(value0) <= self.bits {
+            lemma_gp_scalar(*self);
+            assert forall|env: Env| env_sorted(env) implies #[trigger] w_write_ok(*self, value0, src, env) by {
+                assert(write_ok(*full_reg, value0, src, env));
+                lemma_eval_wf_val(value0, env);
+            }
         }
     }
 //@ end
